@@ -23,6 +23,7 @@ theorem deser_ok_nonNone_plain (O : Oracles) (opts : DeserOpts) (f : FieldDecl) 
   cases f <;> simp only [exactDecl] at hex <;> try (cases hex)
   case anyOf fs => exact absurd rfl (hp fs)
   all_goals simp only [deser, Bool.and_false, Bool.false_eq_true, if_false] at h
+  case noneF => simp [hn] at h
   case number o => unfold dValidated at h; split at h <;> simp at h; subst h; exact hn
   case integer o => unfold dValidated at h; split at h <;> simp at h; subst h; exact hn
   case float o => unfold dValidated at h; split at h <;> simp at h; subst h; exact hn
@@ -73,7 +74,31 @@ theorem deser_ok_nonNone_plain (O : Oracles) (opts : DeserOpts) (f : FieldDecl) 
     · cases h
   case struct c fields defaults =>
     simp only [and_true_iff] at hex
-    have hinl : c.inline = false := by simpa using hex.1.1.1
+    by_cases hinlT : c.inline = true
+    · simp only [hinlT, if_true] at h
+      cases v with
+      | dict kvs =>
+        unfold dInline at h
+        simp only at h
+        split at h
+        · split at h
+          · split at h
+            · rename_i x hx
+              cases h
+              rcases bindE_eq_ok hx with ⟨args, _, h2⟩
+              rcases bindE_eq_ok h2 with ⟨_, _, h3⟩
+              cases h3; rfl
+            · cases h
+          · cases h
+        · split at h
+          · rename_i x hx
+            cases h
+            rcases bindE_eq_ok hx with ⟨args, _, h2⟩
+            rcases bindE_eq_ok h2 with ⟨_, _, h3⟩
+            cases h3; rfl
+          · cases h
+      | _ => simp [dInline] at h
+    have hinl : c.inline = false := by simpa using hinlT
     simp only [hinl, Bool.false_eq_true, if_false] at h
     cases v with
     | inst n a => simp [dClassRef] at h; subst h; rfl
@@ -91,6 +116,7 @@ theorem lift_some_nonNone_plain (O : Oracles) (opts : DeserOpts) (f : FieldDecl)
   cases f <;> simp only [exactDecl] at hex <;> try (cases hex)
   case anyOf fs => exact absurd rfl (hp fs)
   all_goals simp only [lift] at h
+  case noneF => cases h; exact hn
   case number o => cases h; exact hn
   case integer o => cases h; exact hn
   case float o => cases h; exact hn
@@ -153,7 +179,24 @@ theorem lift_some_nonNone_plain (O : Oracles) (opts : DeserOpts) (f : FieldDecl)
     | _ => simp at h
   case struct c fields defaults =>
     simp only [and_true_iff] at hex
-    have hinl : c.inline = false := by simpa using hex.1.1.1
+    by_cases hinlT : c.inline = true
+    · cases v with
+      | inst n a => simp at h; subst h; rfl
+      | dict kvs =>
+        simp only at h
+        cases hk : kwOfDict kvs with
+        | none => simp [hk] at h
+        | some doc =>
+          simp only [hk, Option.bind_some] at h
+          cases hl : liftFields O opts c doc fields with
+          | none => simp [hl] at h
+          | some args =>
+            simp only [hl, Option.bind_some, hinlT, if_true] at h
+            split at h
+            · cases h; rfl
+            · cases h
+      | _ => simp at h
+    have hinl : c.inline = false := by simpa using hinlT
     cases v with
     | inst n a => simp at h; subst h; rfl
     | dict kvs =>
@@ -196,6 +239,7 @@ theorem plain_validate_none (O : Oracles) (f : FieldDecl) (hex : exactDecl f = t
     ∃ e, validate O f .none = .error e := by
   cases f <;> simp only [exactDecl] at hex <;> try (cases hex)
   all_goals simp only [validate]
+  case noneF => simp [plainDecl] at hp
   case number o => exact ⟨_, rfl⟩
   case integer o => exact ⟨_, rfl⟩
   case float o => exact ⟨_, rfl⟩
@@ -212,9 +256,10 @@ theorem plain_validate_none (O : Oracles) (f : FieldDecl) (hex : exactDecl f = t
   case tuplePos gs u => exact ⟨_, rfl⟩
   case mapOf kf vf sz => exact ⟨_, rfl⟩
   case struct c fields defaults =>
-    simp only [and_true_iff] at hex
-    have hinl : c.inline = false := by simpa using hex.1.1.1
-    simp [hinl, vClassRef]
+    by_cases hinlT : c.inline = true
+    · simp [hinlT, vInline]
+    · have hinl : c.inline = false := by simpa using hinlT
+      simp [hinl, vClassRef]
   case anyOf fs => simp [plainDecl] at hp
 
 /-- ... and so does the deserializer -/
@@ -222,6 +267,7 @@ theorem plain_deser_none (O : Oracles) (opts : DeserOpts) (f : FieldDecl) (hex :
     (hp : plainDecl f = true) : ∃ e, deser O opts false f .none = .error e := by
   cases f <;> simp only [exactDecl] at hex <;> try (cases hex)
   all_goals simp only [deser, Bool.and_false, Bool.false_eq_true, if_false]
+  case noneF => simp [plainDecl] at hp
   case number o => exact ⟨_, rfl⟩
   case integer o => exact ⟨_, rfl⟩
   case float o => exact ⟨_, rfl⟩
@@ -238,9 +284,10 @@ theorem plain_deser_none (O : Oracles) (opts : DeserOpts) (f : FieldDecl) (hex :
   case tuplePos gs u => exact ⟨_, rfl⟩
   case mapOf kf vf sz => exact ⟨_, rfl⟩
   case struct c fields defaults =>
-    simp only [and_true_iff] at hex
-    have hinl : c.inline = false := by simpa using hex.1.1.1
-    simp [hinl, dClassRef]
+    by_cases hinlT : c.inline = true
+    · simp [hinlT, dInline]
+    · have hinl : c.inline = false := by simpa using hinlT
+      simp [hinl, dClassRef]
   case anyOf fs => simp [plainDecl] at hp
 
 end Typedpy
